@@ -266,7 +266,25 @@ func (c *Ctx) pathLengthsTable() {
 		} else {
 			c.Check(eq && c.canon(info, rs.X, nil) == cur.Name()+".neigh", "TABLE", name+"/descend", rec.Pos(), "descends into every neighbour except the previous node", "the walk descends under "+code.String()+": "+wit).Clause = clause
 		}
+	} else if child := firstArgObj(info, rec); rs == nil && child != nil && okc {
+		// the same walk written as a counting loop: `for i := 0; i < len(cur.neigh); i++ { child := cur.neigh[i] …`
+		if container, isElem := c.loopElement(info, fi.Decl.Body, rec, rec.Args[0], nil); isElem {
+			code := c.condsToBexpr(info, rel, nil)
+			eq, wit, _, err := gfEquiv(code, bCmp(child.Name(), token.NEQ, prev.Name()))
+			if err != nil {
+				c.Undecided("TABLE", name+"/descend", rec.Pos(), err.Error())
+			} else {
+				c.Check(eq && container == cur.Name()+".neigh", "TABLE", name+"/descend", rec.Pos(), "descends into every neighbour except the previous node", "the walk descends under "+code.String()+" over "+container+": "+wit).Clause = clause
+			}
+		}
 	}
+}
+
+func firstArgObj(info *types.Info, call *ast.CallExpr) types.Object {
+	if len(call.Args) == 0 {
+		return nil
+	}
+	return identObj(info, call.Args[0])
 }
 
 func constObj(info *types.Info, e ast.Expr) *types.Const {
